@@ -144,6 +144,8 @@ class C17(core.Check):
             return ["f", r.choice([0.5, 1.0, -2.25])]
         if depth >= 2:
             return ["i", 3]
+        if c < 0.77:  # POINTS-like: list of lists (of lists)
+            return ["l", [["l", [["i", 1], ["l", [["i", 2]]] if r.random() < 0.3 else ["i", 2]]] for _ in range(r.randint(1, 2))]]
         if c < 0.86:
             return ["l", [self.gen_value(r, depth + 1) for _ in range(r.randint(0, 3))]]
         return [
@@ -217,7 +219,7 @@ class C17(core.Check):
         ("getitem", 12), ("setitem", 14), ("delitem", 6), ("contains", 5), ("get", 6),
         ("pop", 7), ("setdefault", 7), ("update", 10), ("construct", 4), ("len", 1),
         ("keys", 2), ("items", 1), ("iter", 1), ("eq", 3), ("copy", 8), ("nested_append", 5),
-        ("nested_set", 5), ("getitem_fault", 3), ("restart", 0), ("clear", 1), ("values", 1),
+        ("nested_set", 5), ("deep_mutate", 6), ("getitem_fault", 3), ("restart", 0), ("clear", 1), ("values", 1),
     ]
 
     def generate(self, seed, tier):
@@ -269,10 +271,14 @@ class C17(core.Check):
                 ops.append([name, who, r.randrange(8)])
             elif name == "copy":
                 ops.append([name, who, r.choice(["copy", "copy.copy", "deepcopy", "deepcopy", "pickle", "pickle0", "pickle2"])])
+                if r.random() < 0.5:  # shared state shows up on the next mutation, so place one there
+                    ops.append(["deep_mutate", r.choice([who, 7]), r.randrange(6), [r.randrange(4) for _ in range(r.randint(1, 3))], self.gen_value(r, 2)])
             elif name == "nested_append":
                 ops.append([name, who, key, self.gen_value(r, 2)])
             elif name == "nested_set":
                 ops.append([name, who, key, r.choice(keys), self.gen_value(r, 2)])
+            elif name == "deep_mutate":
+                ops.append([name, who, r.randrange(6), [r.randrange(4) for _ in range(r.randint(1, 3))], self.gen_value(r, 2)])
             elif name == "restart":
                 if restarts < 1:
                     restarts += 1
@@ -498,6 +504,32 @@ class C17(core.Check):
                         bump("op.nested_mutation")
                     else:
                         continue
+                elif name == "deep_mutate":
+                    # walk below the value of one key (list index / n-th dict key, modulo size)
+                    # on both sides and mutate the innermost container reached
+                    containers = [k_ for k_, v_ in model.d.items() if isinstance(v_, (list, M))]
+                    if not containers:
+                        continue
+                    k = containers[op[2] % len(containers)]
+                    rc, mc = real.get(k), model.d[k]
+                    for ix in op[3]:
+                        if isinstance(mc, list) and mc and isinstance(mc[ix % len(mc)], (list, M)):
+                            rc, mc = rc[ix % len(mc)], mc[ix % len(mc)]
+                        elif isinstance(mc, M) and mc.d:
+                            kk = list(mc.d)[ix % len(mc.d)]
+                            if isinstance(mc.d[kk], (list, M)):
+                                rc, mc = rc.get(kk), mc.d[kk]
+                    rv, mv = self.build_real(op[4]), self.build_model(op[4])
+                    if isinstance(mc, list):
+                        rr = core.call(lambda: rc.append(rv))
+                        mr = core.call(lambda: mc.append(mv))
+                    elif isinstance(mc, M):
+                        rr = core.call(lambda: rc.__setitem__("Deep", rv))
+                        mr = core.call(lambda: mc.d.__setitem__("deep", mv))
+                    else:
+                        continue
+                    mutated = True
+                    bump("op.nested_mutation")
                 elif name == "nested_set":
                     k = op[2].lower()
                     if k in model.d and isinstance(model.d[k], M):
